@@ -135,6 +135,7 @@ Fixpoint ppi_bounds (lower : float) (cur : list float) (rest : list (list float)
 Definition ppi_slice (n_points : nat) (last_full : bool) (min_n_points min_n_intervals : nat)
            (perm : list nat) (data : list float) : option (list (list bool) * list (float * float)) :=
   let mnp := Nat.min n_points min_n_points in
+  if (length perm <? n_points)%nat then None (* np.split into 0 chunks raises *) else
   let ms := filter (fun m => (mnp <=? count_true m)%nat) (ppi_masks n_points last_full perm) in
   match map (fun m => sel m data) ms with
   | [] => None
